@@ -211,6 +211,39 @@ pub fn run_history(env: &Env, lines: &[(u8, String)], st: &mut Stats) -> CaseRes
     Ok(())
 }
 
+/// one input that is allowed to take long (one second is given) but not to crash
+pub fn run_edge(env: &Env, line: &String, st: &mut Stats) -> CaseResult {
+    st.eval();
+    st.class("expensive_edge_input");
+    let mut sup = env.sup.borrow_mut();
+    match sup.call(&json!({"cmd": "eval", "line": line, "save_prev": false}), Duration::from_secs(1)).map_err(|e| format!("worker: {}", e))? {
+        Outcome::Reply(_) => {
+            st.nontrivial(line.as_str());
+            Ok(())
+        }
+        Outcome::Timeout(_) => {
+            st.class("expensive_edge_overran (allowed to take long)");
+            Ok(())
+        }
+        other => {
+            let sig = signature_of(&other);
+            if env.known.contains(&sig) {
+                st.known(&sig, line);
+                return Ok(());
+            }
+            // memory exhaustion while building an astronomically large number is the
+            // sandbox's business (the statement says so); a panic is not
+            if let Outcome::Died(w) = &other {
+                if w.contains("SIGABRT") || w.contains("SIGKILL") {
+                    st.class("expensive_edge_ran_out_of_memory (allowed)");
+                    return Ok(());
+                }
+            }
+            Err(format!("[{}] input `{}` {:?}", sig, line, other))
+        }
+    }
+}
+
 fn item_strategy() -> impl Strategy<Value = Item> {
     let tape = proptest::collection::vec(any::<u32>(), 0..60);
     prop_oneof![
@@ -273,6 +306,38 @@ pub fn run(cx: &Cx) -> Report {
         },
     ));
     rep.mark(cx, "histories");
+    // inputs whose result is astronomically large or small may take long, but must not crash
+    // either: a fixed alphabet of extreme literals, exponents, shift counts and digit counts, each
+    // given one second on a worker; an overrun is tolerated, a panic or a dead process is not
+    {
+        let mut edge: Vec<String> = vec![];
+        let exps = ["2147483647", "2147483648", "-2147483647", "-2147483648", "-2147483649", "4294967295", "4294967296", "-4294967296", "9223372036854775807", "-9223372036854775808", "99999999999999999999", "5001", "-5001"];
+        for e in exps {
+            edge.push(format!("1e{}", e));
+            edge.push(format!("1.5E{}", e));
+            edge.push(format!("3ee{}", e));
+            edge.push(format!("2^{}", e));
+            edge.push(format!("1|3^{}", e));
+            edge.push(format!("10 << {}", e));
+            edge.push(format!("10 >> {}", e));
+            edge.push(format!("1 m -> 1e{} m", e));
+            edge.push(format!("0.{}1", "0".repeat(40)) + &format!("e{}", e));
+        }
+        for d in ["10001", "65536", "2147483647", "2147483648", "4294967295", "18446744073709551615", "18446744073709551616"] {
+            edge.push(format!("1|7 -> digits {}", d));
+            edge.push(format!("pi -> digits {} hex", d));
+        }
+        let k = known.clone();
+        rep.absorb(par_sweep(
+            cx,
+            "expensive-edges",
+            edge,
+            move || mk_env(k.clone()),
+            |env, line, st| run_edge(env, line, st),
+            |line| json!({"edge": line}),
+        ));
+        rep.mark(cx, "expensive-edges");
+    }
     if let Some(h) = f11 {
         if let Ok((overran, secs)) = h.join() {
             rep.stats.note("f11_witness", json!({"query": "factorize J^2", "budget_s": 10, "overran": overran, "seconds": secs}));
@@ -338,6 +403,9 @@ pub fn replay(cx: &Cx, _phase: &str, case: &J, st: &mut Stats) -> CaseResult {
             .filter(|l| !l.contains('\n') && matches!(classify(&env.ctx, l, (1, 1)).cost, Cost::Cheap) && !crate::oracle::cost::uses_ans(l))
             .collect();
         return run_cli(&lines, st);
+    }
+    if let Some(e) = case.get("edge").and_then(|e| e.as_str()) {
+        return run_edge(&env, &e.to_string(), st);
     }
     let lines: Vec<(u8, String)> = case["lines"]
         .as_array()
